@@ -260,3 +260,59 @@ def mem_boundary_blocks():
         for b in (st - 1, st, st + ln - 1, st + ln):
             out.append("PUSH 7 PUSH %s MSTORE8 PUSH %s PUSH %s KECCAK256" % (hexc(b), hexc(ln), hexc(st)))
     return out
+
+
+NEST2 = ["AND", "OR", "XOR", "ADD", "SUB", "EQ", "LT", "GT"]
+
+
+def nested_rule_blocks():
+    """Two-level terms outer(inner(..), x) in all four operand arrangements (inner as first or second operand of the
+    outer operation, the shared operand x as first or second operand of the inner one), plus unary contexts of every
+    comparison.  These are the shapes of GASOL's context rules (AND/OR absorption, XOR cancellation, ISZERO chains)."""
+    out = []
+    for o in NEST2:
+        for i in NEST2:
+            out.append("DUP2 DUP2 %s %s" % (i, o))            # o(i(x,y), x)
+            out.append("DUP2 DUP2 %s SWAP1 %s" % (i, o))      # o(x, i(x,y))
+            out.append("DUP1 DUP3 %s %s" % (i, o))            # o(i(y,x), x)
+            out.append("DUP1 DUP3 %s SWAP1 %s" % (i, o))      # o(x, i(y,x))
+            # the same four arrangements consuming both operands (the result is not a copy of what stays below)
+            out.append("DUP2 %s %s" % (i, o))                 # o(i(y,x), y)
+            out.append("DUP2 %s SWAP1 %s" % (i, o))           # o(y, i(y,x))
+            out.append("DUP2 SWAP1 %s %s" % (i, o))           # o(i(x,y), y)
+            out.append("DUP2 SWAP1 %s SWAP1 %s" % (i, o))     # o(y, i(x,y))
+    for c in ["LT", "GT", "SLT", "SGT", "EQ", "SUB", "XOR", "AND"]:
+        for ctx in ["ISZERO", "ISZERO ISZERO", "ISZERO ISZERO ISZERO", "ISZERO PUSH 1 EQ", "PUSH 1 EQ", "PUSH 0 EQ",
+                    "PUSH 1 AND", "ISZERO PUSH 0 EQ", "PUSH 1 SWAP1 EQ", "ISZERO PUSH 1 SWAP1 EQ"]:
+            out.append("%s %s" % (c, ctx))
+    return out
+
+
+def mem_heavy_blocks(seed, n):
+    """Blocks made almost only of memory/storage/hash accesses over a base stack of 5 words: loads whose results are
+    combined, stores of loaded values, KECCAK256 whose result is used or popped, constant and symbolic addresses."""
+    r = random.Random(seed)
+    out = []
+    for _ in range(n):
+        h, b = 5, []
+        for _ in range(r.randint(4, 12)):
+            k = r.random()
+            a = "DUP%d" % r.randint(1, min(h, 8)) if r.random() < 0.6 else "PUSH %x" % r.choice([0, 0x20, 0x40, 0x60])
+            if k < 0.3:
+                b += [a, r.choice(["MLOAD", "MLOAD", "SLOAD"])]; h += 1
+            elif k < 0.55 and h >= 2:
+                b += ["DUP%d" % r.randint(1, min(h, 8)), a.replace("DUP", "DUP") if not a.startswith("DUP") else "DUP%d" % min(int(a[3:]) + 1, 16),
+                      r.choice(["MSTORE", "MSTORE", "SSTORE", "MSTORE8"])]
+            elif k < 0.75:
+                b += ["PUSH %x" % r.choice([0x20, 0x40]), a if not a.startswith("DUP") else "DUP%d" % min(int(a[3:]) + 1, 16), "KECCAK256"]
+                h += 1
+                if r.random() < 0.5:
+                    b.append("POP"); h -= 1
+            elif k < 0.9 and h >= 2:
+                b.append(r.choice(["AND", "ADD", "OR", "SWAP1", "SWAP2" if h >= 3 else "SWAP1"]))
+                if b[-1] in ("AND", "ADD", "OR"):
+                    h -= 1
+            elif h >= 1:
+                b.append("POP"); h -= 1
+        out.append(" ".join(b))
+    return out
